@@ -49,10 +49,7 @@ func sameKeyScenario(wr *child.Writer, caseID string, r *rand.Rand, thorough boo
 	y := mon.NewYielder(r.Int63(), 2, 40)
 	rib.VerifSetPoint(y.Point)
 	defer rib.VerifSetPoint(nil)
-	rounds := 1500
-	if thorough {
-		rounds = 20000
-	}
+	rounds := 1500 // per child; the thorough tier has 25 times as many children
 	entry := func(kind, t int, variant int) *spb.AFTOperation {
 		op := mk(spb.AFTOperation_ADD)
 		meta := []byte(fmt.Sprintf("writer-%d", variant))
@@ -189,10 +186,7 @@ func replaceVsGroupDelete(wr *child.Writer, caseID string, r *rand.Rand, thoroug
 	y := mon.NewYielder(r.Int63(), 2, 40)
 	rib.VerifSetPoint(y.Point)
 	defer rib.VerifSetPoint(nil)
-	rounds := 800
-	if thorough {
-		rounds = 15000
-	}
+	rounds := 800 // per child; the thorough tier has 25 times as many children
 	judged := 0
 	for t := 0; t < rounds; t++ {
 		kind := t % 3
